@@ -1,4 +1,5 @@
 use super::{CssSelectorSet, Opt, SelectorSet};
+use crate::ParseError;
 use crate::output::CssBuf;
 
 /// A pseudo-class or a css2 pseudo-element (:foo)
@@ -78,12 +79,15 @@ impl Pseudo {
             false
         }
     }
-    pub(super) fn resolve_ref(mut self, ctx: &CssSelectorSet) -> Self {
+    pub(super) fn resolve_ref(
+        mut self,
+        ctx: &CssSelectorSet,
+    ) -> Result<Self, ParseError> {
         self.arg = match self.arg {
-            Arg::Selector(s) => Arg::Selector(s.resolve_ref(ctx)),
+            Arg::Selector(s) => Arg::Selector(s.resolve_ref(ctx)?),
             x => x,
         };
-        self
+        Ok(self)
     }
     pub(super) fn replace(
         mut self,
